@@ -44,6 +44,19 @@ func checkC16(r *Run) {
 			if root.Name() == "writeFields" || root.Name() == "orderFields" {
 				continue
 			}
+			// wherever the field-ordering code lives: a function that hands a closure to sort.Search /
+			// sort.Slice (and that closure) indexes under the sort package's contract
+			usesSort := false
+			eachInstr(root, func(_ *ssa.BasicBlock, _ int, in ssa.Instruction) {
+				if cc := callCommon(in); cc != nil {
+					if o := calleeObj(cc); o != nil && o.Pkg() != nil && o.Pkg().Path() == "sort" {
+						usesSort = true
+					}
+				}
+			})
+			if usesSort {
+				continue
+			}
 			fns = append(fns, f)
 		}
 		ruleConsumerBounds(r, p, "A23c", fns)
